@@ -557,7 +557,9 @@ func loadYamlFile(ctx context.Context, file types.ConfigFile, opts *Options, wor
 			}
 		}
 	} else {
-		if err := processRawYaml(file.Config); err != nil {
+		// the pre-parsed document belongs to the caller (and may be shared by concurrent loads):
+		// the steps below update the tree in place, so work on a copy
+		if err := processRawYaml(deepClone(file.Config)); err != nil {
 			return nil, nil, err
 		}
 	}
